@@ -225,6 +225,34 @@ def check_no_backend_text(ctx, progs, rule="E7.backend-text"):
     ctx.ob(rule + ".posctl", "text", k > 0, "positive control: the rendering detector matched %d site(s) in fixtures/posctl (must be > 0, otherwise the rule is blind)" % k)
 
 
+def check_dep_divergence(ctx, Pa, rule="E10.dep"):
+    """Places where blsful hands a whole decision to a backend-crate function that the two backends implement with
+    different ACCEPTANCE: contracts read in the dependency sources (analysis/spec/dep_contracts.json, entries with
+    `interchangeable: false`) whose function is reachable from blsful in the build that uses that crate."""
+    import json
+    import os
+
+    p = os.path.join(os.path.dirname(os.path.dirname(os.path.abspath(__file__))), "spec", "dep_contracts.json")
+    tab = json.load(open(p))
+    lock = open(os.path.join(os.environ.get("VERIF_REPO", "/repo"), "Cargo.lock")).read()
+    n = 0
+    for e in tab["contracts"]:
+        if e.get("interchangeable", True):
+            continue
+        n += 1
+        ver_ok = ('name = "%s"\nversion = "%s"' % (e["crate"], e["version"])) in lock
+        ctx.ob(rule + ".version", "%s %s" % (e["crate"], e["version"]), ver_ok, "the divergence was read in %s %s; Cargo.lock %s that version" % (e["crate"], e["version"], "pins" if ver_ok else "does NOT pin"))
+        reached = []
+        for f in Pa.fns.values():
+            for bb, t in f.calls():
+                c = t.get("callee") or {}
+                r = c.get("resolved") or {}
+                if c.get("trait") == "Deserialize" and c.get("self_ty") in ("Scalar", "G1Projective", "G2Projective") and r.get("crate") == e["crate"]:
+                    reached.append((f, bb))
+        ctx.ob(rule, e["key"], not reached, "%s: %s; reachable from blsful through %d call site(s), e.g. %s" % (e["fn"], e["differs"], len(reached), [x[0].key for x in reached[:3]]), where=where(*reached[0]) if reached else None)
+    ctx.floor(rule, "backend divergences read in the dependency sources", n, 1)
+
+
 def check_no_reflection(ctx, progs, rule="E7.reflection"):
     n = 0
     for name, P in progs:
@@ -248,6 +276,7 @@ def run(ctx):
     check_no_reflection(ctx, (("blst", Pa), ("rust", Pb)))
     check_no_backend_ordering(ctx, (("blst", Pa), ("rust", Pb)))
     check_no_backend_text(ctx, (("blst", Pa), ("rust", Pb)))
+    check_dep_divergence(ctx, Pa)
     ka, kb = set(Pa.fns), set(Pb.fns)
     ctx.ob("E10.bodies", "same-set", ka == kb, "bodies only in blst build: %s ; only in rust build: %s" % (sorted(ka - kb)[:5], sorted(kb - ka)[:5]))
     ndiff = 0
